@@ -471,15 +471,23 @@ func init() {
 		if s.Val(v, "path") == "backend" && s.Val(v, "departure") == "tcp" {
 			return false
 		}
-		// the parties cross is reduced: non-plain parties with the default listener configuration only
-		if v[s.idx("parties")] != 0 && (v[s.idx("received")] != 0 || v[s.idx("mustrr")] != 0 || v[s.idx("keep")] != 0 || v[s.idx("ruri")] != 0) {
-			return false
-		}
-		// the environment fault needs a TCP next hop; crossed with arrival, configuration, header and body
-		if v[s.idx("fault")] != 0 && (s.Val(v, "departure") != "tcp" || (s.Val(v, "path") != "route" && s.Val(v, "path") != "static") || v[s.idx("ruri")] != 0 || v[s.idx("method")] != 0 || v[s.idx("parties")] != 0) {
+		// the environment fault needs a TCP next hop
+		if v[s.idx("fault")] != 0 && (s.Val(v, "departure") != "tcp" || (s.Val(v, "path") != "route" && s.Val(v, "path") != "static")) {
 			return false
 		}
 		return true
+	}
+	c01B.Reduce = func(v []int) bool {
+		s := c01B
+		// the parties cross is reduced: non-plain parties with the default listener configuration only
+		if v[s.idx("parties")] != 0 && (v[s.idx("received")] != 0 || v[s.idx("mustrr")] != 0 || v[s.idx("keep")] != 0 || v[s.idx("ruri")] != 0) {
+			return true
+		}
+		// the fault is crossed with arrival, configuration, header and body
+		if v[s.idx("fault")] != 0 && (v[s.idx("ruri")] != 0 || v[s.idx("method")] != 0 || v[s.idx("parties")] != 0) {
+			return true
+		}
+		return false
 	}
 	c01B.Eval = func(v []int) (string, string, bool) { return c01Run(c01InB(v)) }
 	c01InB = func(v []int) c01In {
